@@ -688,6 +688,10 @@ func coordinate(c Check, units []Unit, tier string, seed int64, nw, budget int, 
 			// a run restricted to some units (development) never replaces the check's evidence
 			name = c.ID + ".partial.json"
 		}
+		if r := os.Getenv("VERIF_REPO"); r != "" && r != "/repo" {
+			// a run against another checkout (a seeded change, a candidate fix) is not evidence about /repo
+			name = c.ID + ".alt.json"
+		}
 		os.WriteFile(filepath.Join(Root, "evidence", name), append(j, '\n'), 0o644)
 	}
 	fmt.Printf("%s tier=%s units=%d evaluations=%d distinct=%d states=%d transitions=%d exhaustive=%v violations=%d known=%d wall=%.1fs\n",
